@@ -340,6 +340,23 @@ func c01(c *Ctx) {
 	c01EnumByName(c)
 	r.Rule("R01.Q", "the hint queue is advanced before the hinted vector is read: decodeRegisteredObject removes the hint it takes from Decoder.expectedTypes before it calls popVector, whose elements may be hinted vectors themselves and must find their own hint at the head", 1)
 	c01HintQueue(c)
+	// what the encoder emits the decoder reads without panicking: the reflect / assertion sites of the decode region
+	// are the ones of the C15 census (same side conditions, same acceptances) - an interface-fit test that calls
+	// IsNil on whatever kind was decoded panics on an enum member sitting in an interface field
+	r.Rule("R01.C", "every reflect call and unchecked assertion reachable from Decode / DecodeUnknownObject is discharged by a side condition or accepted with a reason (= the reflect / assert part of R15.C, filed under C01)", 10)
+	{
+		var entries []*ssa.Function
+		for _, n := range []string{"Decode", "DecodeUnknownObject"} {
+			if f := c.P.Func(load.TLPkg, "", n); f != nil {
+				entries = append(entries, f)
+			}
+		}
+		conds := c.populationConditions()
+		if okEnum, _ := enumLeavesBeforeWalk(c); !okEnum {
+			conds["P2"] = false
+		}
+		c.runCensus("R01.C", c.censusRegion(entries, nil), map[string]bool{"reflect": true, "assert": true}, conds, "C15/R15.C")
+	}
 	r.Rule("R01.B", "no function of package tl writes through a []byte parameter: decoding leaves the input bytes alone, encoding leaves the value's byte strings alone", 4)
 	c.paramsUntouched("R01.B", load.TLPkg, func(g *ssa.Function, idx int) bool {
 		// (*Decoder).read(buf) is the one function whose argument is the buffer to fill
